@@ -17,6 +17,7 @@ Clause(e) ==
       others == SetOf(prev.open) \ {e.peer}
   IN IF p.escaped THEN "C20:exception_escaped_the_event_handler_or_manager_step"
      ELSE IF ~p.running THEN "C20:event_loop_stopped"
+     ELSE IF ~p.lock_free THEN "C20:input_left_the_chain_lock_held_so_that_the_event_loop_blocks_at_its_next_use"
      ELSE IF ~(others \subseteq SetOf(p.open)) THEN "C20:another_connection_was_closed"
      ELSE IF ~p.others_served THEN "C20:another_connections_traffic_was_disturbed"
      ELSE IF e.class \notin Valid /\ (p.served # prev.served \/ p.head # prev.head) THEN "C20:malformed_input_changed_chain_state"
